@@ -1,7 +1,7 @@
 #!/bin/bash
 # run_all.sh [quick|thorough] : runs every check in MANIFEST.json on the current tree, prints one line each
 tier="${1:-quick}"
-cd /verif
+cd "$(dirname "$0")/.."
 for id in $(python3 -c "import json; print(' '.join(c['property_id'] for c in json.load(open('MANIFEST.json'))['checks']))"); do
   s=$(date +%s)
   out=$(./check $id $tier 2>&1); rc=$?
